@@ -1,7 +1,9 @@
 //! group `float`: C10 C03 (float rounding primitives, rounding to integers, float arithmetic contract)
 #[path = "../ops_float.rs"]
 mod ops_float;
+#[path = "../ops_f32.rs"]
+mod ops_f32;
 
 fn main() {
-    verif_harness::run_main(&[ops_float::dispatch]);
+    verif_harness::run_main(&[ops_f32::dispatch, ops_float::dispatch]);
 }
